@@ -22,6 +22,9 @@ pub struct PGen<'a> {
     pub allow_safe: bool,
     /// template text and component wrappers without any markup character (C01 mode A)
     pub markup_free: bool,
+    /// every block body is wrapped in \u{1}name\u{2} … \u{3}name\u{4}, so that the text a block writes can be cut out of
+    /// the full render (C04: render_block vs full render)
+    pub block_markers: bool,
     ninc: usize,
     ncomp: usize,
     loop_depth: usize,
@@ -71,7 +74,7 @@ pub fn base_context() -> Vec<(&'static str, V)> {
 
 impl<'a> PGen<'a> {
     pub fn new(rng: &'a mut Rng) -> Self {
-        PGen { rng, path_bias: false, allow_safe: true, markup_free: false, ninc: 0, ncomp: 0, loop_depth: 0, depth: 0, in_component: false }
+        PGen { rng, path_bias: false, allow_safe: true, markup_free: false, block_markers: false, ninc: 0, ncomp: 0, loop_depth: 0, depth: 0, in_component: false }
     }
 
     fn pick<'b>(&mut self, xs: &'b [&'b str]) -> &'b str {
@@ -399,10 +402,20 @@ impl<'a> PGen<'a> {
                 for b in 0..(1 + self.rng.below(3)) {
                     let bn = format!("b{b}");
                     src.push_str(&format!("{{% block {bn} %}}"));
+                    if self.block_markers {
+                        src.push_str(&format!("\u{1}{bn}\u{2}"));
+                    }
                     src.push_str(&self.body(&includes, &components));
                     if b == 0 && self.rng.bool() {
-                        src.push_str("{% block nested %}N{% endblock nested %}");
+                        if self.block_markers {
+                            src.push_str("{% block nested %}\u{1}nested\u{2}N\u{3}nested\u{4}{% endblock nested %}");
+                        } else {
+                            src.push_str("{% block nested %}N{% endblock nested %}");
+                        }
                         defined_in_ancestors.push("nested".into());
+                    }
+                    if self.block_markers {
+                        src.push_str(&format!("\u{3}{bn}\u{4}"));
                     }
                     src.push_str(&format!("{{% endblock {bn} %}}"));
                     src.push_str(&self.body(&includes, &components));
@@ -414,10 +427,16 @@ impl<'a> PGen<'a> {
                 for bn in candidates {
                     if self.rng.bool() {
                         src.push_str(&format!("{{% block {bn} %}}"));
+                        if self.block_markers {
+                            src.push_str(&format!("\u{1}{bn}\u{2}"));
+                        }
                         if self.rng.bool() {
                             src.push_str("{{ super() }}");
                         }
                         src.push_str(&self.body(&includes, &components));
+                        if self.block_markers {
+                            src.push_str(&format!("\u{3}{bn}\u{4}"));
+                        }
                         src.push_str("{% endblock %}");
                     }
                 }
